@@ -148,6 +148,13 @@ def generated_source(idl_rel):
           "move", "mut", "pub", "ref", "return", "self", "Self", "static", "struct", "super", "trait", "true", "type", "unsafe", "use", "where", "while",
           "async", "await", "dyn", "abstract", "become", "box", "do", "final", "macro", "override", "priv", "typeof", "unsized", "virtual", "yield", "try", "gen"}
     text = re.sub(r"\br#([A-Za-z_][A-Za-z0-9_]*)", lambda m: m.group(0) if m.group(1) in kw else m.group(1), g.stdout)
+    # the generator prints one token stream on a single line; rustfmt (same tokens, line structure only) makes line anchors usable
+    try:
+        f = subprocess.run(["rustfmt", "--edition", "2018", "--emit", "stdout"], input=text, capture_output=True, text=True, timeout=120)
+        if f.returncode == 0 and f.stdout.strip():
+            text = f.stdout
+    except (OSError, subprocess.TimeoutExpired):
+        pass
     _GEN_CACHE[idl_rel] = text
     return text
 
